@@ -5,14 +5,74 @@ ROOT = os.path.dirname(os.path.dirname(os.path.abspath(__file__)))
 
 CHECKS = {
  # id: (level, technique, engine, text, note, design_ref)
+ "C01": ("exploration", "runtime reference-model monitor: production CronWorker/Schedule/heap ticked under a controlled (optionally advancing) clock, every schedule request compared with an independent per-JobConfig cursor model and an independent cron field matcher; termination watchdog on clock and cache reads",
+         "refmon",
+         "Seeded populations of JobConfigs admitted through the real webhooks are scheduled by the production CronWorker for 60-180 ticks per case (regular, sub-second, repeated-instant ticks, stalls up to days, status writes between ticks, clock advancing during a tick); per tick the requests must equal the reference stream (exactly once, increasing, inside the window, capped at maxMissedSchedules, never early) and Work() must return. Held on the executions produced.",
+         "cronexpr.Next is the trusted definition of a match; populations up to 200 JobConfigs.", "6/C01"),
+ "C02": ("fault_enumeration", "online monitors on the commit log of a simulated API server driving the real cron controller end to end; every controller API call index x fault kind injected once, plus random fault/crash/lag patterns and injected duplicate requests",
+         "detsim",
+         "The production CronWorker, cron Reconciler, ExecutionControl and the real webhooks run on a simulated API server; for scripted workloads every gated controller API call is failed before apply, conflicted, timed out after apply, or used as a crash point (before/after), plus random patterns and re-delivered schedule requests. At every Job create the monitor checks uniqueness per (owner UID, schedule time) among existing Jobs, name = <jobconfig>-<unix>, annotation = requested time, owner reference and UID label.",
+         "simultaneous existence is judged; re-creation after the Job was deleted is not a duplicate.", "6/C02"),
+ "C03": ("exploration", "runtime reference-model monitor: JobConfig event histories written through the real webhooks, delivered with chosen lag to the production InformerWorker/update handler and CronWorker, requests compared with an epoch cursor model",
+         "refmon",
+         "Seeded histories (create after start, expression/timezone/constraint updates, enable/disable, schedule removed/added, delete, recreate under the same name, label/status-only writes) interleaved with ticks and partial deliveries; after each delivered change the observed requests must be exactly those of the new state from the first tick after delivery on (nothing of the old schedule, nothing back-dated, nothing missing).",
+         "times between a change and the first tick after its delivery are indeterminate by tick granularity.", "6/C03"),
+ "C04": ("fault_enumeration", "runtime reference-model monitor over restart instants: persisted state produced by a real history, fresh production cron controller started at swept instants, requests compared with the reference lower bound; end-to-end crash/restart monitor in the simulation",
+         "refmon",
+         "For seeded persisted states (lastScheduled / lastUpdated / notBefore in every order incl. equalities, downtime below/at/above the threshold, all threshold and cap settings) a fresh CronWorker is initialised and ticked, 1-3 restarts per case; the requests must be exactly the due times later than the reference bound, capped, then continue normally; nothing at or before lastScheduled; never-scheduled JobConfigs get nothing before the start.",
+         "restart instants are sampled (sub-second offsets, exact threshold boundaries), not all instants.", "6/C04"),
+ "C05": ("exploration", "online monitor on every start write against the true active set, counter-vs-truth at quiescent points, over seeded deterministic schedules of the real queue controller and active-job store with lag, concurrent reconciles, faults and crashes",
+         "detsim",
+         "At every write that sets status.startTime of a Forbid/Enqueue Job the number of other started, unfinished Jobs of the JobConfig (API truth) must be below maxConcurrency; at every quiescent point and after every restart the in-memory counter must equal the true number of active Jobs.",
+         "timed-out-but-applied start writes are judged under C20 (known finding there).", "6/C05"),
+ "C06": ("exploration", "online monitors (refusal, FIFO at start writes) and fixpoint oracle (nothing startable queued) over seeded deterministic schedules of the real queue controller",
+         "detsim",
+         "Refusals only for Forbid Jobs, refused Jobs never get a task and end in AdmissionError, Enqueue Jobs start in creation order among due queued Jobs, and at the fixpoint no due Job is queued unless its JobConfig is exactly at its limit.",
+         "FIFO uses strict creation-time order (API timestamps have 1 s resolution).", "6/C06"),
+ "C07": ("exploration", "online monitor of the virtual clock at every start write, fixpoint oracle with no periodic resync",
+         "detsim",
+         "No start write before startAfter (owned and independent Jobs, startAfter edited while queued); with the clock past every startAfter and all timers drained no due Job is still queued - the re-sync must come from the controller's own deferred enqueue.",
+         "bounded progress: fixpoint within the step budget, resync period longer than the horizon.", "6/C07"),
+ "C08": ("exploration", "online monitor at every task (Pod) create: live set per index, retry numbering, retry delay, creation gates judged on the reconcile's recorded view",
+         "detsim",
+         "At every Pod create by the controller: no other live task of the index, retry number = number of earlier tasks of the index and < maxAttempts, retry delay elapsed since the previous attempt finished, and per the cached objects the reconcile read: index not succeeded, Job not complete / killed / refused / being deleted.",
+         "terminal Pods always carry a container termination record in the explored space.", "6/C08"),
+ "C09": ("fault_enumeration", "every controller API call index of scripted lifecycles x {fail before, timeout after apply, crash before, crash after} plus random patterns; monitors on task refs vs Pods after recovery, foreign objects, lost-while-exists",
+         "detsim",
+         "After each injected fault/crash and recovery to the fixpoint: no second task for an attempt, every created task listed (known finding for the unrecorded-task classes), refs never disappear, foreign objects never adopted or deleted and lead to AdmissionError, no task recorded lost while its Pod exists.",
+         "see known_findings.json: unrecorded-task classes.", "6/C09"),
+ "C10": ("exploration", "online monitor at the write that sets the finished condition and fixpoint oracle, against ground-truth Pod outcomes recorded from kubelet events",
+         "detsim",
+         "Succeeded only if the strategy is satisfied by Pods that really succeeded, Failed only if unsatisfiable in truth, finished (not being deleted) only with no live task; at the fixpoint decided Jobs have reached their result.",
+         "externally removed Pods are non-terminal ones (destroyed information is not demanded back).", "6/C10"),
+ "C11": ("exploration", "pairwise monitor over every committed Job version (monotonicity, all writers) and coherence monitor on job-controller status writes",
+         "detsim",
+         "startTime never changes, finished never reverts, result/finish time stable unless user edit or deletion, createdTasks and task names never shrink, task timestamps never cleared; controller-written versions have exactly one condition, matching state, terminal phase iff finished, counters equal to the list.",
+         "", "6/C11"),
+ "C12": ("exploration", "online monitor justifying every controller-issued Pod delete (pending timeout / kill / strategy decided / Job deleted / force-delete timeout) on the reconcile's view and the virtual clock; fixpoint oracle after all deadlines",
+         "detsim",
+         "Every Pod delete request of the controller must be justified at the clock reading of the commit; force deletes need the timeout and no forbid flag; at the fixpoint killed Jobs are terminal and no never-running task outlives its pending timeout.",
+         "no periodic resync: un-armed deadlines show as stuck Jobs.", "6/C12"),
+ "C13": ("exploration", "online monitors at the commit that removes a Job and at every controller-issued Job delete (TTL on the virtual clock); fixpoint oracle for completion of deletion and TTL cleanup",
+         "detsim",
+         "A Job object disappears only when no Pod of it exists; controller deletes happen no earlier than finish + effective TTL; at the fixpoint deleting Jobs without Pods are gone and finished Jobs past TTL are gone.",
+         "", "6/C13"),
  "C14": ("exploration", "reference-model monitor over the real expansion/hash/validation/NewPod code, exhaustive withCount sub-range + generated specs",
          "refmon",
          "Runs the real GenerateIndexes/HashIndex/ValidateParallelismSpec/GetParallelStatus/NewPod on withCount 1..N (exhaustive) and on seeded withKeys/withMatrix specs and compares with an independent expansion; accepted specs must have pairwise distinct indexes, hashes, task names and status slots and Pods carrying their own index values. Held on the inputs explored, not a proof.",
          "hashstructure is the definition of the raw hash; ValidateParallelismSpec is taken as the admission decision.", "6/C14"),
+ "C15": ("exploration", "quiescent-point oracle comparing JobConfig status with the true queued/active sets; pairwise monotonicity monitor on every JobConfig version",
+         "detsim",
+         "At every quiescent point queuedJobs/activeJobs, counts and state equal the truth and lastScheduled/lastExecuted cover every existing Job; over all versions they never decrease.",
+         "", "6/C15"),
  "C18": ("exploration", "reference-model monitor: real EvaluateOptions / Mutator.MutateCreateJob / NewPod vs independent evaluator and single-pass substituter; determinism by repeated execution",
          "refmon",
          "Generated option specs (all five types), value maps (missing/null/wrong-typed/custom/'${..}'), overlapping explicit substitutions and task templates are run through the real option evaluation, the real configName admission path and NewPod; accepted outputs must satisfy per-type constraint predicates, equal the JobConfig default when no value was given, follow the source precedence, blank unknown reserved-prefix variables, leave other text untouched and be identical over 20 repeated calls. Held on the inputs explored.",
          "goment/time.Parse trusted for Date; exact text comparison only where sequential and single-pass substitution semantics coincide (no '$','{','}' in substituted values, no nested variables), determinism/totality always.", "6/C18"),
+ "C20": ("fault_enumeration", "every controller API call index of confluent cron+ad-hoc workloads x {500 before, 409 before, timeout after apply} plus random finite fault patterns; all safety monitors adopted, fixpoint convergence, reference schedule stream, fault-free twin-run outcome comparison",
+         "detsim",
+         "With all four controllers and the cron controller on the simulated API: during the run every safety monitor (C02, C05-C13) must stay silent, after faults stop a fixpoint is reached within the step budget with bounded requeues, every due schedule time inside the determinate window has its Job, and the set of Jobs and their results equal those of the fault-free run with the same seed.",
+         "twin equality on Job set and results (task-level kill-vs-finish races excluded); known findings listed in known_findings.json.", "6/C20"),
 }
 
 NOT_YET = {
@@ -54,8 +114,10 @@ def main():
             })
             for e in engine.split("+"):
                 eng.setdefault(e.strip(), []).append(pid)
+            if not note:
+                m["checks"][-1]["level_note"] = "simulated API server / kubelet stand in for kube-apiserver, etcd and the node (DESIGN.md 3.1); held on the executions produced"
         else:
-            m["not_applicable"].append({"property_id": pid, "reason": NOT_YET.get(pid, "check not built yet in this round (planned, see DESIGN.md §6); not claimed until its monitor exists and is silent on the unchanged tree")})
+            m["not_applicable"].append({"property_id": pid, "reason": NOT_YET.get(pid, "check not built yet (planned, see DESIGN.md §6); not claimed until its monitor exists and is silent on the unchanged tree")})
     desc = {
         "refmon": ("internal/checks", "reference-model monitors: real furiko functions/objects run on generated inputs next to an independent executable model"),
         "detsim": ("internal/sim", "deterministic single-stepped simulation of the real controllers on a simulated API server with online monitors"),
